@@ -544,6 +544,18 @@ K("dedup.quantized_fallback", ["C17"], DT, "dt_order.rs", "quantized_fallback_co
   assumed=["quantize_coords (stub): returns None; dedup_vertices_epsilon_n2 (stub): identity, records its input (proved greedy by dedup.n* for the public twins)"],
   obligations=["fallback-complete", "fallback-result"],
   claim="dedup_vertices_epsilon_quantized: when coordinates cannot be bucketed, the O(n^2) path receives the complete input in order (no vertex lost)")
+K("dedup.quantized_fallback.n2", ["C17"], DT, "dt_order.rs", "quantized_fallback_n2_contract", "K-callee",
+  [fn(DT, "dedup_vertices_epsilon_quantized")], timeout=1200, no_playback=True,
+  bounded="2 input vertices; the first vertex is the one that cannot be bucketed (bucket-map insertions do not fit in CBMC)",
+  assumed=["quantize_coords (stub): returns None; dedup_vertices_epsilon_n2 (stub): identity, records its input (proved greedy by dedup.n* for the public twins)"],
+  obligations=["fallback-complete", "fallback-result"],
+  claim="dedup_vertices_epsilon_quantized: when coordinates cannot be bucketed, the O(n^2) path receives the complete input in order (no vertex lost)")
+K("dedup.quantized_fallback.n1", ["C17"], DT, "dt_order.rs", "quantized_fallback_n1_contract", "K-callee",
+  [fn(DT, "dedup_vertices_epsilon_quantized")], timeout=1200, no_playback=True,
+  bounded="1 input vertices; the first vertex is the one that cannot be bucketed (bucket-map insertions do not fit in CBMC)",
+  assumed=["quantize_coords (stub): returns None; dedup_vertices_epsilon_n2 (stub): identity, records its input (proved greedy by dedup.n* for the public twins)"],
+  obligations=["fallback-complete", "fallback-result"],
+  claim="dedup_vertices_epsilon_quantized: when coordinates cannot be bucketed, the O(n^2) path receives the complete input in order (no vertex lost)")
 
 for _nm, _fnn, _har, _old in (("exact", "dedup_vertices_exact_hash_grid", "exact_hash_grid_fallback_contract", "    if !hash_grid_usable_for_vertices(grid, &vertices) {\n        return dedup_vertices_exact_sorted(vertices);"),
                               ("epsilon", "dedup_vertices_epsilon_hash_grid", "epsilon_hash_grid_fallback_contract", "    if !hash_grid_usable_for_vertices(grid, &vertices) {\n        return dedup_vertices_epsilon_quantized(vertices, epsilon);")):
@@ -569,12 +581,13 @@ K("hull.validity", ["C11"], HULL, "hull.rs", "hull_validity_contract", "K-callee
   claim="ConvexHull::is_valid_for_triangulation <=> creation generation == triangulation generation, for all pairs of u64 generations; invalidate_cache leaves the creation generation alone",
   mutant=dict(file=HULL, old=".map_or(self.is_empty(), |&g| g == tri.tds.generation())", new=".map_or(self.is_empty(), |&g| g <= tri.tds.generation())",
               desc="hull considered valid for any newer triangulation generation"))
-for nm, fname, har, pair in [("is_point_outside.c56", "is_point_outside", "hull_stale_is_point_outside_c56", (5, 6)), ("is_point_outside.c65", "is_point_outside", "hull_stale_is_point_outside_c65", (6, 5)),
+for nm, fname, har, pair in [("validate.c56", "validate", "hull_stale_validate_c56", (5, 6)), ("validate.c65", "validate", "hull_stale_validate_c65", (6, 5)),
+                             ("is_point_outside.c56", "is_point_outside", "hull_stale_is_point_outside_c56", (5, 6)), ("is_point_outside.c65", "is_point_outside", "hull_stale_is_point_outside_c65", (6, 5)),
                              ("facet_visible.c56", "is_facet_visible_from_point", "hull_stale_facet_visible_c56", (5, 6)), ("find_nearest.c65", "find_nearest_visible_facet", "hull_stale_find_nearest_c65", (6, 5))]:
     K(f"hull.stale.{nm}", ["C11", "C19"], HULL, "hull.rs", har, "K-callee", [fn(HULL, fname, anchor=r"pub fn " + fname + r"\(")],
-      tier="thorough", timeout=5400, assumed=_HULL_ASSUME,
+      tier="quick" if nm.startswith("validate") else "thorough", timeout=5400, assumed=_HULL_ASSUME,
       obligations=["stale-" + nm.split(".")[0].replace("_", "-"), "no-cache-work"],
-      bounded=f"one concrete pair of generations (hull created at {pair[0]}, triangulation at {pair[1]}), one facet handle, any query point; all pairs: the thorough-tier twin",
+      bounded=f"one concrete pair of generations (hull created at {pair[0]}, triangulation at {pair[1]}), one facet handle, any query point; all pairs of generations: hull.validity (the predicate) and the symbolic twins (manual, DESIGN 8.4)",
       claim=f"ConvexHull::{fname} on a stale hull (generation {pair[0]} vs {pair[1]}) returns StaleHull before any cache build - no panic, no answer")
 for nm, fname, tier in [("validate", "validate", "quick"), ("is_point_outside", "is_point_outside", "thorough"), ("find_visible", "find_visible_facets", "thorough"),
                         ("find_nearest", "find_nearest_visible_facet", "thorough"), ("facet_visible", "is_facet_visible_from_point", "thorough")]:
@@ -1039,6 +1052,20 @@ K("tri.index_edges_canonical", ["C15"], TRI, "tri_edges.rs", "edge_index_canonic
   mutant=dict(file=TRI, old="                    let edge = EdgeKey::new(vertices[i], vertices[j]);\n                    if !seen_edges.insert(edge) {", new="                    let edge = EdgeKey::new(vertices[i], vertices[j]);\n                    if seen_edges.insert(edge) {",
               desc="edge dedup inverted in the adjacency index"))
 
+_SL_WRAP = dict(file=TRI, fn_anchor=r"fn insert_transactional\(", name="verif_slice_insert_wrap", params="&self, vertex: Vertex<K::Scalar, U, D>",
+                ret="Result<Vertex<K::Scalar, U, D>, TriangulationConstructionError>", where="where K::Scalar: CoordinateScalar",
+                stmts=[r"let vertex = if self\.global_topology.*?\n        \};"], result="Ok(vertex)")
+K("tri.later_insert_wrapped", ["C16"], TRI, "tri_wrap.rs", "later_insert_wrapped_contract", "K-slice",
+  [dict(file=TRI, name="Triangulation::insert_transactional (K-slice: the `let vertex = if <periodic topology> { .. } else { vertex };` statement)", anchor=r"fn insert_transactional\(")],
+  slices=[_SL_WRAP], timeout=1200, no_playback=True,
+  assumed=["K-slice: the single statement `let vertex = if self.global_topology.. { .. } else { vertex };` at the top of insert_transactional, the rest dropped (that the insertion continues with THIS `vertex` binding is by reading); "
+           "f64::rem_euclid replaced by its assumed contract (as in toroidal.* / canon_model.*); format! stubbed; D = 2, f64"],
+  obligations=["later-insert-wrapped", "in-range-unchanged", "euclidean-untouched", "identity-kept"],
+  claim="a vertex inserted AFTER construction into a triangulation with a toroidal global topology is wrapped into the half-open fundamental box like the vertices the builder wrapped, "
+        "for every finite coordinate pair and every period pair; Euclidean triangulations insert the vertex as given (F9)",
+  mutant=dict(file=TRI, old="        let vertex = if self.global_topology.model().periodic_domain().is_some() {", new="        let vertex = if false && self.global_topology.model().periodic_domain().is_some() {",
+              desc="later insertions are no longer wrapped (F9 regression)"))
+
 K("dt.level4_report", ["C04", "C05"], DT, "dt.rs", "level4_report_contract", "K-callee",
   [fn(DT, "validation_report", anchor=r"pub fn validation_report\(&self\) -> Result<\(\), TriangulationValidationReport>")], tier="thorough", timeout=5400,
   assumed=["Triangulation::validation_report (stub): Ok or a report with one violation (mapping kind or other); DelaunayTriangulation::is_valid (stub): any verdict"],
@@ -1112,7 +1139,7 @@ K("dt.reseeded_index", ["C09"], DT, "dt_index.rs", "reseeded_index_contract", "K
 # command: they do not finish within 45 min here (or were never seen to finish).
 # They are listed in DESIGN.md 8.4 with what was observed.
 # ======================================================================================
-_MANUAL = {"construct.retry_gate", "tri.index_edges_canonical", "flip.inserted_simplex_guard.kept", "flip.inserted_simplex_guard.removed", "tri.txn_attempt.ok", "tri.txn_attempt.dup", "tri.txn_attempt.degenerate", "tri.txn_attempt.structural", "tri.validation_report", "dt.level4_report", "order.seed", "facet_key.order_free", "dedup.n4",
+_MANUAL = {"construct.retry_gate", "dedup.quantized_fallback.n2", "dedup.quantized_fallback", "hull.stale.validate", "tri.later_insert_wrapped", "tri.index_edges_canonical", "flip.inserted_simplex_guard.kept", "flip.inserted_simplex_guard.removed", "tri.txn_attempt.ok", "tri.txn_attempt.dup", "tri.txn_attempt.degenerate", "tri.txn_attempt.structural", "tri.validation_report", "dt.level4_report", "order.seed", "facet_key.order_free", "dedup.n4",
            "tds.remove_cells_bump.k0", "tds.remove_cells_bump.k1", "tds.remove_cells_bump.k2",
            "tri.adjacent_cells.n2_nohint", "tri.adjacent_cells.n2_hint", "tri.adjacent_cells.n0_absent",
            "hull.stale.is_point_outside", "hull.stale.find_visible", "hull.stale.find_nearest", "hull.stale.facet_visible",
